@@ -1,6 +1,9 @@
 use crate::api::Transformer;
 use crate::http::Request;
 use serde::{Deserialize, Serialize};
+#[cfg(kani)]
+use crate::verif_shim::map::HashMap;
+#[cfg(not(kani))]
 use std::collections::HashMap;
 
 #[derive(Serialize, Deserialize, Debug, Clone)]
